@@ -25,12 +25,16 @@ FILES = {"manager": "cloudsync/sync/manager.py", "state": "cloudsync/sync/state.
          "cs": "cloudsync/cs.py", "provider": "cloudsync/provider.py"}
 
 
+LEMMA_SIZE = {}
+
+
 def lemma_map():
     """qualname -> {(prop, lemma)} from the committed evidence files (functions_by_lemma)"""
     m = {}
     for f in glob.glob(os.path.join(HERE, "evidence", "C*.json")):
         d = json.load(open(f))
         for lemma, fns in d["coverage"].get("functions_by_lemma", {}).items():
+            LEMMA_SIZE[lemma] = len(fns)
             for q in fns:
                 m.setdefault(q, set()).add((d["property_id"], lemma))
     return m
@@ -108,7 +112,9 @@ def main():
         for p, l in users:
             byprop.setdefault(p, set()).add(l)
         prop = max(byprop, key=lambda p: len(byprop[p]))       # the property whose lemma set covers the function best
-        lemmas = sorted(byprop[prop])
+        # the most specific lemmas first (fewest functions inlined), at most three: a helper used everywhere would
+        # otherwise re-run the whole property
+        lemmas = sorted(byprop[prop], key=lambda l: (LEMMA_SIZE.get(l, 999), l))[:3]
         tmp = tempfile.mkdtemp(prefix="mut.")
         try:
             subprocess.run(["rsync", "-a", "--exclude", ".git", "--exclude", "__pycache__", REPO + "/", tmp + "/"], check=True)
